@@ -285,6 +285,36 @@ theorem parse_message (id : Ident) (sw : Switch) (h : IdWF id) :
   have hd : min d 4 % 256 = min d 4 := by omega
   simp [parseMessage, proofMessage, switch_roundtrip, Ident.fromSerializedPath, hd]
 
+/-- byte-level round trip of the message for depth ≤ 4 -/
+theorem parse_roundtrip (id : Ident) (sw : Switch) (h : IdWF id) (hd : id.toPath.depth ≤ 4) :
+    parseMessage (proofMessage id sw) = some (id, sw) := by
+  have hp := parse_message id sw h
+  obtain ⟨hl, _⟩ := h
+  obtain ⟨d, a0, a1, a2, a3, b0, b1, b2, b3, e0, e1, e2, e3, f0, f1, f2, f3, rfl⟩ := list17 id hl
+  simp only [Ident.toPath] at hd
+  have : min d 4 = d := by omega
+  simpa only [List.headD_cons, List.drop_succ_cons, List.drop_zero, this] using hp
+
+/-- **View key** (root, depth 0): it reads the same message and recovers `(id, None)` for every
+identifier of depth ≤ 4 whose used components are not hardened, for every non-zero amount — and
+that is all it can do in the code as it is: a `Regular` output or a zero amount gives `Err`
+(`ViewKey::commit`), a hardened component gives `None`. -/
+theorem view_message_roundtrip (vkChild : ChildNumber) (pubMatches : Ident → Switch → Bool)
+    (amount : Nat) (id : Ident) (sw : Switch) (h : IdWF id) (hd : id.toPath.depth ≤ 4) :
+    viewCheckOutput 0 vkChild pubMatches amount (proofMessage id sw) =
+      if (id.toPath.comps.take id.toPath.depth).any ChildNumber.isHardened then .none
+      else if amount = 0 then .err
+      else match sw with
+        | .regular => .err
+        | .none => if pubMatches id .none then .some id .none else .none := by
+  simp only [viewCheckOutput, parse_roundtrip id sw h hd, Nat.not_lt_zero, if_false,
+    Nat.lt_irrefl, Bool.false_and, List.drop_zero, gt_iff_lt, decide_false, Bool.false_eq_true]
+  split
+  · rfl
+  · split
+    · rfl
+    · cases sw <;> rfl
+
 /-- **message_roundtrip (ProofBuilder)**: for every identifier of depth ≤ 4 — all u32 components —
 and both switch modes, `check_output` on the commitment made for `(amount, id, switch)` and the
 message `proof_message(id, switch)` returns exactly `(id, switch)`. `commitOf` is any (deterministic)
